@@ -1673,8 +1673,10 @@ class Kconfig(object):
             for sym in symbols_with_default_values:
                 sym.resolve_defaults()
 
-            for choice in choices_with_default_values:
-                choice.resolve_defaults()
+            # In definition order: the result must not depend on the iteration order of a set
+            for choice in self.unique_choices:
+                if choice in choices_with_default_values:
+                    choice.resolve_defaults()
 
             for sym in promptless_with_default_values:
                 if sym.str_value != sym._sdkconfig_value and sym.name not in self.promptless_no_warn:
@@ -4819,10 +4821,16 @@ class Symbol:
         # choice: it is a choice symbol, which is resolved on choice level
         # _sdkconfig_value is None: symbol is not present in sdkconfig (shouldn't happen, but just in case)
         # resolve_vis() == 0: symbol is not visible, so we don't need to resolve its defaults
+        if self.choice:
+            # Choice symbols are resolved on the choice level. A symbol depending on this one must see the
+            # choice's resolved (possibly sdkconfig-provided) default selection, so resolve the choice first.
+            if self._loaded_as_default and self._sdkconfig_value is not None and self._user_value is None:
+                self.choice.resolve_defaults()
+            return
+
         if (
             self._defaults_resolved
             or self._user_value is not None
-            or self.choice
             or self._sdkconfig_value is None
             or self.resolve_vis() == 0
         ):
@@ -6071,7 +6079,11 @@ class Choice:
         # if choice has a user selection but some of its symbols have default value,
         # "user-set" those symbols manually.
         # As the choice will become fully user-set, we will skip the rest of the "default value" logic.
-        if self._defaults_resolved or self.resolve_vis() == 0:
+        if self._defaults_resolved:
+            return
+        # Set right away: resolving the dependencies below may lead back to one of the choice's own symbols
+        self._defaults_resolved = True
+        if self.resolve_vis() == 0:
             return
 
         if self._user_selection is not None:
